@@ -157,7 +157,9 @@ def build(c, root):
         src = os.path.join(srcdir, "start.trr")
         with open(src, "wb") as fh:
             for j, (p, v) in enumerate(frames):
-                raw, _ = trrref.encode_frame(n, j, 0.0, 0.0, box=[3.0, 0, 0, 0, 3.0, 0, 0, 0, 3.0], x=(p / 10).ravel().tolist(), v=(v / 10).ravel().tolist(), double=True)
+                # (the box of the start frame need not be the one of the engine's input configuration - pressure coupling)
+                L = {"same": 3.0, "other": 3.3, "grow": 3.0 + 0.06 * (j + 1)}[c.get("src_box", "same")]
+                raw, _ = trrref.encode_frame(n, j, 0.0, 0.0, box=[L, 0, 0, 0, L, 0, 0, 0, L + 0.1 * (L != 3.0)], x=(p / 10).ravel().tolist(), v=(v / 10).ravel().tolist(), double=True)
                 fh.write(raw)
         from infretis.classes.engines import gromacs as g
 
@@ -284,6 +286,9 @@ def cases(draw, engines):
         c["beh"]["exit_code"] = 3
     if c["beh"]["die_at"] is not None and draw(st.sampled_from([False, False, True])):
         c["beh"]["die_signal"] = draw(st.sampled_from([9, 6, 11]))  # killed / abort / segfault instead of an exit code
+    c["twin"] = draw(st.sampled_from([False, False, True]))
+    if eng == "gromacs":
+        c["src_box"] = draw(st.sampled_from(["same", "other", "grow"]))
     if eng == "cp2k":
         c["cell_form"] = draw(st.sampled_from(["ABC", "vectors", "angles"]))  # three spellings of the same 30 A cell
         c["src_nobox"] = draw(st.booleans())
@@ -322,6 +327,13 @@ def body(rec, c):
         if eng_name in EXT:
             with open(os.path.join(eng.exe_dir, "fake_behaviour.json"), "w") as fh:
                 json.dump(c["beh"], fh)
+        twin = None
+        if c.get("twin"):
+            import pickle
+
+            # a second engine object of the same worker (as in the multi-engine / QuanTIS layouts, where a move runs two
+            # engines in the worker's directory under one ensemble name)
+            twin = pickle.loads(pickle.dumps(eng))
         system = ek.system_for(src, c["src_index"], vel_rev=c["vel_rev"])
         init = frame_of((src, c["src_index"]))
         if eng_name == "gromacs":
@@ -403,6 +415,9 @@ def body(rec, c):
         physi = init["vel"] * (-1.0 if c["vel_rev"] else 1.0)
         rec.check(np.allclose(f0["pos"], init["pos"], rtol=0, atol=tolp), f"{eng_name}:first-frame-is-not-the-given-point:positions", f"{f0['pos'].tolist()} vs {init['pos'].tolist()} {info}")
         rec.check(np.allclose(phys0, physi, rtol=0, atol=1e-7), f"{eng_name}:first-frame-is-not-the-given-point:velocities", f"{phys0.tolist()} vs {physi.tolist()} (reverse={c['reverse']}, vel_rev={c['vel_rev']})")
+        if eng_name in ("gromacs", "lammps", "ase") and init["box"] is not None and f0["box"] is not None:
+            rec.check(np.allclose(np.asarray(f0["box"], float)[:3], np.asarray(init["box"], float)[:3], rtol=0, atol=1e-5), f"{eng_name}:first-frame-is-not-the-given-point:box",
+                      f"{np.asarray(f0['box']).tolist()} vs {np.asarray(init['box']).tolist()} {info}")
         # (2) stored order == order recomputed from the referenced frame, with its own box and velocity direction
         tolo = 5e-7 if eng_name != "gromacs" else 2e-6
         for k, pp in enumerate(path.phasepoints):
@@ -423,6 +438,19 @@ def body(rec, c):
             for k, pp in enumerate(path.phasepoints):
                 if pp.vpot is not None:
                     rec.check(abs(pp.vpot - (-1.0 - 0.01 * k)) < 1e-5 and abs(pp.ekin - (0.5 + 0.001 * k)) < 1e-5, f"{eng_name}:energies-attached-to-wrong-frame", f"frame {k}: vpot {pp.vpot} ekin {pp.ekin}")
+        if twin is not None and not may_fail:
+            import hashlib
+
+            files1 = sorted({pp.config[0] for pp in path.phasepoints})
+            dig1 = {f: hashlib.sha1(open(f, "rb").read()).hexdigest() for f in files1}
+            path2 = Path(maxlen=c["maxlen"])
+            with time_limit(PROPAGATE_LIMIT):
+                twin.propagate(path2, ens_set, ek.system_for(src, c["src_index"], vel_rev=c["vel_rev"]), reverse=c["reverse"])
+            files2 = sorted({pp.config[0] for pp in path2.phasepoints})
+            rec.cls("second-engine-object-in-the-same-directory")
+            rec.check(not set(files1) & set(files2), f"{eng_name}:two-engines-of-a-worker-write-the-same-trajectory-file", f"{sorted(set(files1) & set(files2))} {info}")
+            dig1b = {f: hashlib.sha1(open(f, "rb").read()).hexdigest() if os.path.exists(f) else None for f in files1}
+            rec.check(dig1 == dig1b, f"{eng_name}:trajectory-of-a-finished-path-changed-by-another-engine", f"{[f for f in files1 if dig1[f] != dig1b[f]]} {info}")
     finally:
         isolate.rmscratch(root)
 
